@@ -1918,6 +1918,9 @@ class Scene:
         """
         derivs= {}
 
+        # The derivatives are written to the file here, not the perturbed force solutions
+        filename = kwargs.pop("filename", None)
+
         # Specify the aircraft
         aircraft_names = self._get_aircraft(**kwargs)
 
@@ -2007,6 +2010,11 @@ class Scene:
             self._airplanes[aircraft_name].set_aerodynamic_state(alpha=alpha_0, beta=beta_0, v_wind=v_wind)
             self._solved = False
 
+        # Export to file
+        if filename is not None:
+            with open(filename, 'w') as output_handle:
+                json.dump(derivs, output_handle, indent=4)
+
         return derivs
 
 
@@ -2042,6 +2050,9 @@ class Scene:
             A dictionary of damping derivatives.
         """
         derivs = {}
+
+        # The derivatives are written to the file here, not the perturbed force solutions
+        filename = kwargs.pop("filename", None)
 
         # Specify the aircraft
         aircraft_names = self._get_aircraft(**kwargs)
@@ -2190,6 +2201,11 @@ class Scene:
                 derivs[aircraft_name]["Cm_w,rbar"] = (FM_dr_fwd[aircraft_name]["total"]["Cm_w"]-FM_dr_bwd[aircraft_name]["total"]["Cm_w"])*dx_inv*lat_non_dim
                 derivs[aircraft_name]["Cn_w,rbar"] = (FM_dr_fwd[aircraft_name]["total"]["Cn_w"]-FM_dr_bwd[aircraft_name]["total"]["Cn_w"])*dx_inv*lat_non_dim
 
+        # Export to file
+        if filename is not None:
+            with open(filename, 'w') as output_handle:
+                json.dump(derivs, output_handle, indent=4)
+
         return derivs
 
 
@@ -2223,6 +2239,9 @@ class Scene:
             radians.
         """
         derivs = {}
+
+        # The derivatives are written to the file here, not the perturbed force solutions
+        filename = kwargs.pop("filename", None)
 
         # Specify the aircraft
         aircraft_names = self._get_aircraft(**kwargs)
@@ -2286,6 +2305,11 @@ class Scene:
                     derivs[aircraft_name]["Cm_w,d"+control_name] = (FM_fwd[aircraft_name]["total"]["Cm_w"]-FM_bwd[aircraft_name]["total"]["Cm_w"])/diff
                     derivs[aircraft_name]["Cn_w,d"+control_name] = (FM_fwd[aircraft_name]["total"]["Cn_w"]-FM_bwd[aircraft_name]["total"]["Cn_w"])/diff
 
+        # Export to file
+        if filename is not None:
+            with open(filename, 'w') as output_handle:
+                json.dump(derivs, output_handle, indent=4)
+
         return derivs
 
 
@@ -2330,6 +2354,9 @@ class Scene:
             A dictionary of state derivatives.
         """
         derivs= {}
+
+        # The derivatives are written to the file here, not the perturbed force solutions
+        filename = kwargs.pop("filename", None)
 
         # Specify the aircraft
         aircraft_names = self._get_aircraft(**kwargs)
@@ -2381,6 +2408,11 @@ class Scene:
             self._airplanes[aircraft_name].set_state(**orig_state)
             self._perform_geometry_and_atmos_calcs()
             self._solved = False
+
+        # Export to file
+        if filename is not None:
+            with open(filename, 'w') as output_handle:
+                json.dump(derivs, output_handle, indent=4)
 
         return derivs
 
